@@ -279,4 +279,38 @@ example : denote (layout nested [1, 2] 3) =
      (.bn (.fresh [0, 0]), .iri 13, .bn (.fresh [1, 0, 0])), (.bn (.fresh [1, 0, 0]), .iri 12, .lit 6)] := by
   decide
 
+/-! ## Layer 3 — HexTuples rows -/
+
+/-- a term as it can occur as an object in an rdflib graph: a literal has a datatype or a language, not both;
+    a datatype is not one of the two marker words; a language tag is not empty -/
+def HextOk : HTerm → Prop
+  | .lit _ (some dt) lang => lang = none ∧ dt ≠ globalId ∧ dt ≠ localId
+  | .lit _ none (some l) => l ≠ []
+  | _ => True
+
+/-- the row written for an object term reads back as the same term, up to the RDF 1.1 identification of
+    simple literals with xsd:string (the only change the property allows for HexTuples) -/
+def Statement_hext_row_roundtrip : Prop :=
+  ∀ t : HTerm, HextOk t → norm11 (hextParseObj (hextObj t)) = norm11 t
+
+theorem hext_row_roundtrip : Statement_hext_row_roundtrip := by
+  intro t ht
+  match t, ht with
+  | .iri i, _ => simp [hextObj, hextParseObj, norm11]
+  | .bnode b, _ =>
+    have : localId ≠ globalId := by decide
+    simp [hextObj, hextParseObj, norm11, this, stripBn]
+  | .lit lex (some dt) lang, ⟨h1, h2, h3⟩ =>
+    subst h1
+    simp [hextObj, hextParseObj, norm11, h2, h3]
+  | .lit lex none (some l), h =>
+    have h1 : rdfLangString ≠ globalId := by decide
+    have h2 : rdfLangString ≠ localId := by decide
+    simp only [HextOk] at h
+    simp [hextObj, hextParseObj, norm11, h1, h2, h]
+  | .lit lex none none, _ =>
+    have h1 : xsdString ≠ globalId := by decide
+    have h2 : xsdString ≠ localId := by decide
+    simp [hextObj, hextParseObj, norm11, h1, h2]
+
 end RV.C03
